@@ -76,11 +76,17 @@ struct CmObs {
     ovap: Vec<f32>,
     ovar: Vec<f32>,
     ovaf: Vec<f32>,
+    beta: f32,
+    fb: f32,
+    ovop: Vec<f32>,
+    ovor: Vec<f32>,
+    /// every split matrix has the members `[true, false]`
+    split_members_ok: bool,
 }
 impl CmObs {
     fn line(&self) -> String {
         format!(
-            "ok members={} cells={} acc={} prec={} rec={} f1={} fh={} f2={} mcc={} ova={} ovo={} ovap={} ovar={} ovaf={}",
+            "ok members={} cells={} acc={} prec={} rec={} f1={} fh={} f2={} mcc={} ova={} ovo={} ovap={} ovar={} ovaf={} fb={} ovop={} ovor={}",
             self.members.join(","),
             list2(self.cells.iter().map(|r| r.iter()), |x| x.to_string()),
             h32c(self.scores[0]),
@@ -95,16 +101,28 @@ impl CmObs {
             list(self.ovap.iter(), |x| h32c(*x)),
             list(self.ovar.iter(), |x| h32c(*x)),
             list(self.ovaf.iter(), |x| h32c(*x)),
+            h32c(self.fb),
+            list(self.ovop.iter(), |x| h32c(*x)),
+            list(self.ovor.iter(), |x| h32c(*x)),
         )
     }
 }
 
-fn observe_cm<L: CmLabel>(form: usize, pred: &[L], truth: &[L], tok: &dyn Fn(&L) -> String) -> Result<CmObs, String> {
-    observe_cm_of(forms::call_cm(form, pred, truth), pred, truth, &[], tok)
+/// `f_score(beta)` is driven with 1, 0.5, 2 on every case and with one more `beta` per case from
+/// this table (0: the precision; > 2; negative: beta enters squared; huge; inf: NaN by 0 * inf or inf / inf)
+const BETAS: [f32; 6] = [0.0, 0.25, 3.0, -1.0, 1000.0, f32::INFINITY];
+
+fn beta_of<L: PartialEq>(form: usize, pred: &[L], truth: &[L]) -> f32 {
+    let eq = pred.iter().zip(truth.iter()).filter(|(a, b)| a == b).count();
+    BETAS[(pred.len() * 7 + eq * 3 + form) % BETAS.len()]
+}
+
+fn observe_cm<L: CmLabel>(form: usize, beta: f32, pred: &[L], truth: &[L], tok: &dyn Fn(&L) -> String) -> Result<CmObs, String> {
+    observe_cm_of(forms::call_cm(form, pred, truth), beta, pred, truth, &[], tok)
 }
 
 /// `extra`: labels that may appear among the members without occurring in `pred` or `truth`
-fn observe_cm_of<L: CmLabel>(res: linfa::error::Result<ConfusionMatrix<L>>, pred: &[L], truth: &[L], extra: &[L], tok: &dyn Fn(&L) -> String) -> Result<CmObs, String> {
+fn observe_cm_of<L: CmLabel>(res: linfa::error::Result<ConfusionMatrix<L>>, beta: f32, pred: &[L], truth: &[L], extra: &[L], tok: &dyn Fn(&L) -> String) -> Result<CmObs, String> {
     let cm = match res {
         Ok(cm) => cm,
         Err(linfa::Error::MismatchedShapes(_, _)) => return Err("err MismatchedShapes".into()),
@@ -124,6 +142,11 @@ fn observe_cm_of<L: CmLabel>(res: linfa::error::Result<ConfusionMatrix<L>>, pred
         ovap: ova_cms.iter().map(|c| c.precision()).collect(),
         ovar: ova_cms.iter().map(|c| c.recall()).collect(),
         ovaf: ova_cms.iter().map(|c| c.f1_score()).collect(),
+        beta,
+        fb: cm.f_score(beta),
+        ovop: ovo_cms.iter().map(|c| c.precision()).collect(),
+        ovor: ovo_cms.iter().map(|c| c.recall()).collect(),
+        split_members_ok: ova_cms.iter().chain(ovo_cms.iter()).all(|c| cm_parts(c).0 == vec![true, false]),
     })
 }
 
@@ -202,6 +225,14 @@ fn oracle_cm<L: Ord + Clone + Eq>(ctx: &mut Ctx, prefix: &str, pred: &[L], truth
     ctx.require(close(o.scores[3] as f64, fbeta(1.0, p, r), 1e-5), "f_beta", &class, || format!("f1 {} want {}", o.scores[3], fbeta(1.0, p, r)));
     ctx.require(close(o.scores[4] as f64, fbeta(0.5, p, r), 1e-5), "f_beta", &class, || format!("f0.5 {} want {}", o.scores[4], fbeta(0.5, p, r)));
     ctx.require(close(o.scores[6] as f64, fbeta(2.0, p, r), 1e-5), "f_beta", &class, || format!("f2 {} want {}", o.scores[6], fbeta(2.0, p, r)));
+    ctx.require(close(o.fb as f64, fbeta(o.beta as f64, p, r), 1e-5), "f_beta", &class, || format!("f_score({}) {} want {}", o.beta, o.fb, fbeta(o.beta as f64, p, r)));
+    // the split matrices are binary matrices of the class against the rest / the other class: members [true, false]
+    ctx.require(o.split_members_ok, "split_members", &class, || "a one-vs-all / one-vs-one matrix does not have the members [true, false]".to_string());
+    if o.ovo.len() == ovo_want.len() && o.ovop.len() == ovo_want.len() && o.ovor.len() == ovo_want.len() {
+        for (q, m) in ovo_want.iter().enumerate() {
+            ctx.require(close(o.ovop[q] as f64, pb(m), 1e-5) && close(o.ovor[q] as f64, rb(m), 1e-5), "one_vs_one_scores", &class, || format!("pair {}: precision/recall {} {} want {} {}", q, o.ovop[q], o.ovor[q], pb(m), rb(m)));
+        }
+    }
     for c in 0..k {
         let (pc, rc) = (pb(&ova_want[c]), rb(&ova_want[c]));
         ctx.require(close(o.ovap[c] as f64, pc, 1e-5) && close(o.ovar[c] as f64, rc, 1e-5) && close(o.ovaf[c] as f64, fbeta(1.0, pc, rc), 1e-5), "one_vs_all_scores", &class, || {
@@ -232,7 +263,8 @@ fn same_obs(a: &CmObs, b: &CmObs) -> bool {
 /// (op `cmf form=k`) has the same model and the same oracle: the matrix is a function of the
 /// (prediction, truth) label vectors only, whatever container carries them
 fn op_cm<L: CmLabel>(em: &mut Em, form: usize, ty: &str, kind: &str, pred: Vec<L>, truth: Vec<L>, perm: Vec<usize>, tok: &dyn Fn(&L) -> String) {
-    let args = format!("ty={} p={} t={}", ty, list(pred.iter(), |x| tok(x)), list(truth.iter(), |x| tok(x)));
+    let beta = beta_of(form, &pred, &truth);
+    let args = format!("ty={} beta={} p={} t={}", ty, hex32(beta), list(pred.iter(), |x| tok(x)), list(truth.iter(), |x| tok(x)));
     let op = if form == 0 { format!("cm {}", args) } else { format!("cmf form={} {}", form, args) };
     let prefix = if form == 0 { "cm".to_string() } else { format!("cmf:{}", forms::CM_FORM_NAMES[form]) };
     em.count(&format!("{}:{}", if form == 0 { "cm" } else { "cmf" }, kind));
@@ -243,7 +275,7 @@ fn op_cm<L: CmLabel>(em: &mut Em, form: usize, ty: &str, kind: &str, pred: Vec<L
     let class = format!("{}:{}", prefix, kind);
     let okkey = if form == 0 { format!("cm:{}", kind.split(':').next().unwrap_or("")) } else { format!("cmf:{}", forms::CM_FORM_NAMES[form]) };
     let body = |ctx: &mut Ctx| {
-        let o = match observe_cm(form, &pred, &truth, tok) {
+        let o = match observe_cm(form, beta, &pred, &truth, tok) {
             Ok(o) => o,
             Err(e) => return e,
         };
@@ -252,7 +284,7 @@ fn op_cm<L: CmLabel>(em: &mut Em, form: usize, ty: &str, kind: &str, pred: Vec<L
             // one permutation applied to predictions and truths together
             let pp: Vec<L> = perm.iter().map(|i| pred[*i].clone()).collect();
             let tt: Vec<L> = perm.iter().map(|i| truth[*i].clone()).collect();
-            match observe_cm(form, &pp, &tt, tok) {
+            match observe_cm(form, beta, &pp, &tt, tok) {
                 Ok(o2) => ctx.require(same_obs(&o, &o2), "perm_invariant", &prefix, || format!("permuted input {:?} gives {} instead of {}", perm, o2.line(), o.line())),
                 Err(e) => ctx.fail("perm_invariant", &prefix, format!("permuted input fails: {}", e)),
             }
@@ -284,7 +316,7 @@ fn op_cm<L: CmLabel>(em: &mut Em, form: usize, ty: &str, kind: &str, pred: Vec<L
 /// statement speaks of the label sets of the two vectors, so only the requests whose cache has exactly
 /// the labels of `pred` are inside it (full oracle); the others are compared with the model
 /// (`confusionWith`, theorem `confusion_with_labels_sum`) and checked against a direct count.
-fn op_cm_stale(em: &mut Em, cached: Vec<usize>, pred: Vec<usize>, truth: Vec<usize>) {
+fn op_cm_stale(em: &mut Em, form: usize, cached: Vec<usize>, pred: Vec<usize>, truth: Vec<usize>) {
     let tok = |x: &usize| x.to_string();
     let mut lp: Vec<usize> = cached.clone();
     lp.sort();
@@ -293,11 +325,12 @@ fn op_cm_stale(em: &mut Em, cached: Vec<usize>, pred: Vec<usize>, truth: Vec<usi
     let lset: BTreeSet<usize> = lp.iter().copied().collect();
     let kind = if pset == lset { "same" } else if pset.is_subset(&lset) { "covering" } else { "dropping" };
     em.count(&format!("cms:{}", kind));
-    let op = format!("cms lp={} p={} t={}", list(lp.iter(), |x| x.to_string()), list(pred.iter(), |x| x.to_string()), list(truth.iter(), |x| x.to_string()));
-    let class = format!("cms:cache={}", kind);
+    em.count(&format!("cms:form={}", forms::STALE_FORM_NAMES[form]));
+    let op = format!("cms form={} lp={} p={} t={}", form, list(lp.iter(), |x| x.to_string()), list(pred.iter(), |x| x.to_string()), list(truth.iter(), |x| x.to_string()));
+    let class = if form == 0 { format!("cms:cache={}", kind) } else { format!("cms:{}:cache={}", forms::STALE_FORM_NAMES[form], kind) };
     let same = kind == "same";
     let body = |ctx: &mut Ctx| {
-        let o = match observe_cm_of(forms::call_cm_stale(&cached, &pred, &truth), &pred, &truth, &lp, &tok) {
+        let o = match observe_cm_of(forms::call_cm_stale(form, &cached, &pred, &truth), 1.0, &pred, &truth, &lp, &tok) {
             Ok(o) => o,
             Err(e) => return e,
         };
@@ -323,11 +356,13 @@ fn op_cm_stale(em: &mut Em, cached: Vec<usize>, pred: Vec<usize>, truth: Vec<usi
     } else {
         em.case(op, body)
     }
-    tally(em, &class, false);
+    // answered cases per cache kind (all forms together) and per form
+    tally(em, &format!("cms:cache={}", kind), false);
+    tally(em, &format!("cms:form={}", forms::STALE_FORM_NAMES[form]), false);
 }
 
 fn gen_cm_stale(em: &mut Em, rng: &mut Rng) {
-    let reps = if em.thorough() { 3000 } else { 300 };
+    let reps = if em.thorough() { 4800 } else { 480 };
     for r in 0..reps {
         let (pred, truth) = random_cm_pair(rng);
         let n = pred.len();
@@ -349,7 +384,7 @@ fn gen_cm_stale(em: &mut Em, rng: &mut Rng) {
                 }
             }
         }
-        op_cm_stale(em, cached, pred, truth);
+        op_cm_stale(em, (r / 3) % forms::STALE_FORMS, cached, pred, truth);
     }
 }
 
@@ -498,20 +533,24 @@ fn observe_roc(form: usize, s: &[f32], y: &[bool]) -> RocObs {
 /// `form` 0: `(&[Pr]).roc(&[bool])` (op `roc`); other forms (op `rocf`): `Array1<Pr>`, views, datasets
 fn op_roc(em: &mut Em, form: usize, kind: &str, s: Vec<f32>, y: Vec<bool>, perm: Vec<usize>) {
     let args = format!("s={} y={}", list(s.iter(), |x| hex32(*x)), list(y.iter(), |b| (*b as u8).to_string()));
-    let op = if form == 0 { format!("roc {}", args) } else { format!("rocf form={} {}", form, args) };
+    let equal_len = s.len() == y.len();
+    // unequal lengths are outside the property's guard (today `zip` truncates silently; a length check
+    // would be as good): oracle-only request, nothing compared, nothing required
+    let op = if !equal_len { format!("#rocf-unequal form={} {}", form, args) } else if form == 0 { format!("roc {}", args) } else { format!("rocf form={} {}", form, args) };
     if form != 0 {
         em.count(&format!("rocf:form={}", forms::BIN_FORM_NAMES[form]));
     }
-    let equal_len = s.len() == y.len();
     let npos = y.iter().filter(|b| **b).count();
     let nneg = y.len() - npos;
     let in_range = s.iter().all(|x| *x >= 0.0 && *x <= 1.0);
-    // distinct scores closer than the grouping threshold 1e-10 are merged by the code (documented
-    // limit); the Mann-Whitney claim is checked only when there are none
+    // the statement quantifies over ALL probability vectors: distinct scores however close (saturated
+    // probabilities 1e-12 vs 5e-11) are distinct ranks of the Mann-Whitney statistic.  `tiny_gap`
+    // only labels the class (the original code merged scores closer than 1e-10: finding
+    // C05-roc-epsilon-grouping, fixed)
     let mut sorted = s.clone();
     sorted.sort_by(|a, b| a.partial_cmp(b).unwrap());
-    let separated = sorted.windows(2).all(|w| w[0] == w[1] || (w[1] - w[0]) > 2e-10);
-    let covered = equal_len && npos > 0 && nneg > 0 && in_range && separated;
+    let tiny_gap = sorted.windows(2).any(|w| w[0] != w[1] && (w[1] - w[0]) <= 2e-10);
+    let covered = equal_len && npos > 0 && nneg > 0 && in_range;
     let has_zero = s.iter().any(|x| *x == 0.0);
     let has_tie = sorted.windows(2).any(|w| w[0] == w[1]);
     em.count(&format!("{}:{}", if form == 0 { "roc" } else { "rocf" }, kind));
@@ -520,8 +559,12 @@ fn op_roc(em: &mut Em, form: usize, kind: &str, s: Vec<f32>, y: Vec<bool>, perm:
         if has_tie {
             em.count("roc:tied_scores");
         }
+        if tiny_gap {
+            em.count("roc:tiny_gap");
+        }
     }
-    let class = if form == 0 { format!("roc:min_score={}", if has_zero { "zero" } else { "positive" }) } else { format!("rocf:{}:min_score={}", forms::BIN_FORM_NAMES[form], if has_zero { "zero" } else { "positive" }) };
+    let gap = if tiny_gap { ":gap=below_1e-10" } else { "" };
+    let class = if form == 0 { format!("roc:min_score={}{}", if has_zero { "zero" } else { "positive" }, gap) } else { format!("rocf:{}:min_score={}{}", forms::BIN_FORM_NAMES[form], if has_zero { "zero" } else { "positive" }, gap) };
     let body = |ctx: &mut Ctx| {
         let o = observe_roc(form, &s, &y);
         if covered {
@@ -637,8 +680,19 @@ fn gen_roc(em: &mut Em, rng: &mut Rng) {
         rng.shuffle(&mut perm);
         op_roc(em, 0, "random", s, y, perm);
     }
-    // outside the Mann-Whitney claim (model vs code only): scores chained within 1e-10, negative
-    // scores (filtered out by the code), a single class
+    // saturated probabilities: distinct scores closer than 1e-10 to each other (and to 0), both classes
+    for _ in 0..(if em.thorough() { 2000 } else { 200 }) {
+        let n = 2 + rng.below(8);
+        let s: Vec<f32> = (0..n).map(|_| *rng.pick(&[0.0f32, 1e-12, 3e-11, 5e-11, 1.2e-10, 2.1e-10, 3e-10, 0.5, 1.0])).collect();
+        let mut y: Vec<bool> = (0..n).map(|_| rng.coin()).collect();
+        y[0] = true;
+        y[1] = false;
+        let mut perm: Vec<usize> = (0..n).collect();
+        rng.shuffle(&mut perm);
+        op_roc(em, 0, "saturated", s, y, perm);
+    }
+    // outside the Mann-Whitney claim (model vs code only): negative scores (filtered out by the
+    // code), a single class
     for _ in 0..(if em.thorough() { 1500 } else { 150 }) {
         let n = 2 + rng.below(10);
         let s: Vec<f32> = (0..n)
@@ -666,6 +720,19 @@ fn op_logloss(em: &mut Em, form: usize, kind: &str, s: Vec<f32>, y: Vec<bool>, p
     let cform = match form { 0 => 1, 1 => 0, k => k };
     let op = if form == 0 { format!("logloss {}", args) } else { format!("loglossf form={} {}", form, args) };
     em.count(&format!("{}:{}", if form == 0 { "logloss" } else { "loglossf" }, kind));
+    if s.len() != y.len() {
+        // outside the property's guard (equal lengths): the documented behaviour is a panic, an `Err`
+        // would be as good; only a silently returned value is reported.  Oracle-only, not compared.
+        let cls = format!("loglossf:{}", forms::BIN_FORM_NAMES[cform]);
+        em.case(format!("#logloss-mismatch form={} {}", form, args), |ctx| {
+            let r = catch_unwind(AssertUnwindSafe(|| forms::call_log_loss(cform, &s, &y)));
+            if let Ok(Ok(v)) = r {
+                ctx.fail("length_mismatch_rejected", &cls, format!("{} probabilities against {} labels: returned {} instead of rejecting the call", s.len(), y.len(), v));
+            }
+            "-".to_string()
+        });
+        return;
+    }
     if form != 0 {
         em.count(&format!("loglossf:form={}", forms::BIN_FORM_NAMES[cform]));
     }
@@ -888,24 +955,32 @@ fn oracle_reg_col(ctx: &mut Ctx, prefix: &str, w: usize, col: usize, a: &[f64], 
     let tol = if w == 64 { 1e-9 } else { 2e-4 };
     let err: Vec<f64> = a.iter().zip(b.iter()).map(|(x, y)| x - y).collect();
     let get = |k: usize| obs[k][col];
-    let mut chk = |ctx: &mut Ctx, k: usize, clause: &str, class: &str, want: f64, slack: f64| {
+    // `unit`: the natural scale of the score (max|input| for the absolute errors, its square for the
+    // squared ones, 1 for the dimensionless scores), capped at 1 so the test is never looser than
+    // `close`.  The inputs are exactly representable in the working precision, so every difference
+    // a_i - b_i carries only a relative error u and the sums of non-negative terms (n+2)u: the bound
+    // is relative to the score itself; `unit` only keeps the test meaningful at 0.
+    let mag = a.iter().chain(b.iter()).fold(0.0f64, |m, x| m.max(x.abs()));
+    let (u1, u2) = (mag.min(1.0), (mag * mag).min(1.0));
+    let mut chk = |ctx: &mut Ctx, k: usize, clause: &str, class: &str, want: f64, slack: f64, unit: f64| {
         let ok = match get(k) {
-            Some(v) => close(v, want, tol) || (v - want).abs() <= slack,
+            Some(v) if v.is_finite() && want.is_finite() => (v - want).abs() <= tol * (unit + v.abs().max(want.abs())) || (v - want).abs() <= slack,
+            Some(v) => close(v, want, tol),
             None => false,
         };
         ctx.require(ok, clause, class, || format!("{} column {}: got {:?}, definition gives {} (a={:?} b={:?})", NAMES[k], col, get(k), want, a, b));
     };
     let cls = format!("{}:f{}", prefix, w);
-    chk(ctx, 0, "max_error_def", &cls, err.iter().fold(f64::NEG_INFINITY, |m, e| m.max(e.abs())), 0.0);
-    chk(ctx, 1, "mae_def", &cls, err.iter().map(|e| e.abs()).sum::<f64>() / nf, 0.0);
-    chk(ctx, 2, "mse_def", &cls, err.iter().map(|e| e * e).sum::<f64>() / nf, 0.0);
+    chk(ctx, 0, "max_error_def", &cls, err.iter().fold(f64::NEG_INFINITY, |m, e| m.max(e.abs())), 0.0, u1);
+    chk(ctx, 1, "mae_def", &cls, err.iter().map(|e| e.abs()).sum::<f64>() / nf, 0.0, u1);
+    chk(ctx, 2, "mse_def", &cls, err.iter().map(|e| e * e).sum::<f64>() / nf, 0.0, u2);
     let mut ae: Vec<f64> = err.iter().map(|e| e.abs()).collect();
     ae.sort_by(|x, y| x.partial_cmp(y).unwrap());
     let med = if n % 2 == 1 { ae[n / 2] } else { (ae[n / 2 - 1] + ae[n / 2]) / 2.0 };
-    chk(ctx, 3, "median_def", &cls, med, 0.0);
+    chk(ctx, 3, "median_def", &cls, med, 0.0, u1);
     if a.iter().all(|x| *x != 0.0) {
         // percentage error relative to the receiver
-        chk(ctx, 4, "mape_def", &cls, err.iter().zip(a.iter()).map(|(e, x)| (e / x).abs()).sum::<f64>() / nf, 0.0);
+        chk(ctx, 4, "mape_def", &cls, err.iter().zip(a.iter()).map(|(e, x)| (e / x).abs()).sum::<f64>() / nf, 0.0, 1.0);
     }
     let mean_b = b.iter().sum::<f64>() / nf;
     let sstot = b.iter().map(|y| (y - mean_b) * (y - mean_b)).sum::<f64>();
@@ -915,7 +990,7 @@ fn oracle_reg_col(ctx: &mut Ctx, prefix: &str, w: usize, col: usize, a: &[f64], 
     if sstot > 1e-3 * scale * scale {
         // the code regularises the denominator by 1e-10: exact size of that documented deviation
         let slack = |s: f64| 1.01e-10 * s.abs() / (sstot * (sstot + 1e-10)) + if w == 32 { 2e-4 * (1.0 + s.abs() / sstot) } else { 1e-9 * (1.0 + s.abs() / sstot) };
-        chk(ctx, 5, "r2_def", &cls, 1.0 - ssres / sstot, slack(ssres));
+        chk(ctx, 5, "r2_def", &cls, 1.0 - ssres / sstot, slack(ssres), 1.0);
         let mean_e = err.iter().sum::<f64>() / nf;
         let var_e = err.iter().map(|e| (e - mean_e) * (e - mean_e)).sum::<f64>();
         let zero_mean = mean_e.abs() <= 1e-12 * (1.0 + err.iter().fold(0.0f64, |m, e| m.max(e.abs())));
@@ -933,11 +1008,11 @@ fn oracle_reg_col(ctx: &mut Ctx, prefix: &str, w: usize, col: usize, a: &[f64], 
         } else {
             format!("explained_variance:mean_error=nonzero:value={}", if is_coded { "sum_sq_minus_mean_error" } else { "other" })
         };
-        chk(ctx, 6, "explained_variance_textbook", &ecls, 1.0 - var_e / sstot, slack(var_e));
+        chk(ctx, 6, "explained_variance_textbook", &ecls, 1.0 - var_e / sstot, slack(var_e), 1.0);
     }
     if a.iter().chain(b.iter()).all(|x| 1.0 + *x > 1e-6) {
         let l: Vec<f64> = a.iter().zip(b.iter()).map(|(x, y)| (1.0 + x).ln() - (1.0 + y).ln()).collect();
-        chk(ctx, 7, "msle_def", &cls, l.iter().map(|e| e * e).sum::<f64>() / nf, 0.0);
+        chk(ctx, 7, "msle_def", &cls, l.iter().map(|e| e * e).sum::<f64>() / nf, 0.0, 1.0);
     }
 }
 
@@ -946,7 +1021,7 @@ fn oracle_reg_col(ctx: &mut Ctx, prefix: &str, w: usize, col: usize, a: &[f64], 
 fn op_reg(em: &mut Em, form: usize, exact: bool, kind: &str, w: usize, p: usize, a: Vec<Vec<f64>>, b: Vec<Vec<f64>>, perm: Vec<usize>) {
     // a reversed view is summed by ndarray in memory order, i.e. backwards: the left-to-right model
     // agrees only up to rounding there, so that form is always compared with tolerance
-    let exact = exact && !(p == 1 && forms::REG1_FORM_NAMES[form].contains("reversed"));
+    let exact = exact && !(if p == 1 { forms::REG1_FORM_NAMES[form] } else { forms::REGM_FORM_NAMES[form] }).contains("reversed");
     let name = match (exact, form == 0) {
         (true, true) => "reg",
         (false, true) => "regt",
@@ -1109,7 +1184,7 @@ fn gen_reg_forms(em: &mut Em, rng: &mut Rng) {
                 // difference to the left-to-right model, amplified by the cancellation in `1 - q` of r2 /
                 // explained variance, can exceed the relative tolerance of `regtf` (seen: 1.8e-5, thorough
                 // seed 2); f32 with a non-trivial layout is covered by the strided form
-                let w = if single && forms::REG1_FORM_NAMES[form].contains("reversed") { 64 } else { w };
+                let w = if (if single { forms::REG1_FORM_NAMES[form] } else { forms::REGM_FORM_NAMES[form] }).contains("reversed") { 64 } else { w };
                 let wide = rng.chance(1, 4);
                 let p = if single { 1 } else { 2 + rng.below(if wide { 5 } else { 2 }) };
                 if r % 3 != 2 {
@@ -1267,6 +1342,81 @@ fn gen_sil(em: &mut Em, rng: &mut Rng) {
     }
 }
 
+/// op `sils cl=.. x=.. l=..`: the silhouette of a dataset whose label counts are stale (counted on
+/// `cl`, targets overwritten with `l` afterwards).  Outside the statement unless the counts are those
+/// of the data (then: full oracle); otherwise model (`silhouetteC`) against code only — stale cluster
+/// sizes as divisors, the `unwrap` panic on an uncached label.
+fn op_sil_stale(em: &mut Em, x: Vec<Vec<f64>>, cached: Vec<usize>, l: Vec<usize>) {
+    let n = x.len();
+    let d = x[0].len();
+    let counts = |v: &Vec<usize>| {
+        let mut m = std::collections::BTreeMap::new();
+        v.iter().for_each(|c| *m.entry(*c).or_insert(0usize) += 1);
+        m
+    };
+    let (cc, cl) = (counts(&cached), counts(&l));
+    let kind = if cc == cl { "fresh" } else if l.iter().any(|c| !cc.contains_key(c)) { "uncached_label" } else { "stale_counts" };
+    em.count(&format!("sils:{}", kind));
+    let op = format!("sils cl={} x={} l={}", list(cached.iter(), |v| v.to_string()), list2(x.iter().map(|r| r.iter()), |v| hex64(*v)), list(l.iter(), |v| v.to_string()));
+    let dist = |i: usize, j: usize| -> f64 { x[i].iter().zip(x[j].iter()).map(|(a, b)| (a - b) * (a - b)).sum::<f64>().sqrt() };
+    let labels: Vec<usize> = cl.keys().copied().collect();
+    let covered = kind == "fresh" && labels.len() >= 2 && labels.iter().all(|c| {
+        let members: Vec<usize> = (0..n).filter(|i| l[*i] == *c).collect();
+        members.len() >= 2 && members.iter().any(|i| x[*i] != x[members[0]])
+    });
+    em.case(op, |ctx| {
+        let rec = Array2::from_shape_fn((n, d), |(i, j)| x[i][j]);
+        let v = forms::call_sil_stale(rec, &cached, &l).expect("silhouette");
+        if covered {
+            let mut total = 0.0;
+            for i in 0..n {
+                let own: Vec<usize> = (0..n).filter(|j| *j != i && l[*j] == l[i]).collect();
+                let a = own.iter().map(|j| dist(i, *j)).sum::<f64>() / own.len() as f64;
+                let b = labels.iter().filter(|c| **c != l[i]).map(|c| {
+                    let m: Vec<usize> = (0..n).filter(|j| l[*j] == *c).collect();
+                    m.iter().map(|j| dist(i, *j)).sum::<f64>() / m.len() as f64
+                }).fold(f64::INFINITY, f64::min);
+                total += (b - a) / a.max(b);
+            }
+            let want = total / n as f64;
+            ctx.require(close(v, want, 1e-9), "silhouette_def", "sils:fresh", || format!("silhouette {} want {}", v, want));
+        }
+        format!("ok {}", tl(v))
+    });
+    if em.only.is_none() {
+        let last = em.outs.last().cloned().unwrap_or_default();
+        em.count(&format!("ok:sils:{}", if last.starts_with("ok") { kind } else { "panic" }));
+    }
+}
+
+fn gen_sil_stale(em: &mut Em, rng: &mut Rng) {
+    let reps = if em.thorough() { 1500 } else { 150 };
+    for r in 0..reps {
+        let (x, l, _) = random_sil(rng, false, 64);
+        let n = l.len();
+        if n == 0 {
+            continue;
+        }
+        let a = l.iter().copied().max().unwrap_or(0) + 2;
+        let mut cached = l.clone();
+        match r % 3 {
+            0 => rng.shuffle(&mut cached),
+            1 => {
+                let gone = l[rng.below(n)];
+                let by = rng.below(a);
+                cached.iter_mut().for_each(|v| if *v == gone { *v = by });
+            }
+            _ => {
+                for _ in 0..(1 + rng.below(3)) {
+                    let i = rng.below(n);
+                    cached[i] = rng.below(a);
+                }
+            }
+        }
+        op_sil_stale(em, x, cached, l);
+    }
+}
+
 // ------------------------------------------------------------------ Pearson
 
 fn observe_pearson(form: usize, w: usize, x: &[Vec<f64>], p: usize) -> Vec<f64> {
@@ -1331,6 +1481,12 @@ fn op_pearson(em: &mut Em, form: usize, w: usize, kind: &str, x: Vec<Vec<f64>>, 
     };
     em.case_valid(op, name, body);
     tally(em, name, false);
+    if form == 4 && em.only.is_none() {
+        // not part of the property, only counted: are the p-values of 3 resamplings frequencies k/3?
+        let rec = Array2::from_shape_fn((n, p), |(i, j)| x[i][j]);
+        let f = catch_unwind(AssertUnwindSafe(|| forms::pvalues_are_frequencies(rec))).unwrap_or(false);
+        em.count(if f { "pearsonf:pvalues=frequencies" } else { "pearsonf:pvalues=other" });
+    }
 }
 
 fn random_pearson(rng: &mut Rng, w: usize) -> (Vec<Vec<f64>>, usize, &'static str) {
@@ -1406,7 +1562,11 @@ fn floors(em: &mut Em) {
         add(&[&format!("cmf:form={}", forms::CM_FORM_NAMES[f])], 150);
     }
     add(&["cms:same"], 60);
-    add(&["cms:covering"], 30);
+    add(&["cms:covering"], 20);
+    for f in 0..forms::STALE_FORMS {
+        add(&[&format!("cms:form={}", forms::STALE_FORM_NAMES[f])], 40);
+    }
+    add(&["roc:tiny_gap"], 80);
     add(&["cms:dropping"], 30);
     add(&["roc:lowest_score_zero"], 1000);
     add(&["roc:lowest_score_positive"], 300);
@@ -1415,7 +1575,7 @@ fn floors(em: &mut Em) {
         add(&[&format!("rocf:form={}", forms::BIN_FORM_NAMES[f])], 250);
     }
     add(&["logloss:"], 300);
-    for f in [0usize, 2, 3, 4, 5, 6] {
+    for f in [0usize, 2, 3, 4, 5, 6, 7, 8, 9] {
         add(&[&format!("loglossf:form={}", forms::BIN_FORM_NAMES[f])], 80);
     }
     add(&["reg:lattice", ":f64:"], 400);
@@ -1431,18 +1591,24 @@ fn floors(em: &mut Em) {
         add(&[&format!("regtf:form={}", forms::REG1_FORM_NAMES[f])], if rev { 30 } else { 10 });
     }
     for f in 1..forms::REGM_FORMS {
-        add(&[&format!("regf:form={}", forms::REGM_FORM_NAMES[f])], 20);
-        add(&[&format!("regtf:form={}", forms::REGM_FORM_NAMES[f])], 10);
+        let rev = forms::REGM_FORM_NAMES[f].contains("reversed");
+        if !rev {
+            add(&[&format!("regf:form={}", forms::REGM_FORM_NAMES[f])], 20);
+        }
+        add(&[&format!("regtf:form={}", forms::REGM_FORM_NAMES[f])], if rev { 30 } else { 10 });
     }
     add(&["sil:", ":covered"], 300);
     add(&["sil:d=3+", ":covered"], 30);
-    add(&["sil32:", ":covered"], 120);
+    add(&["sil32:", ":covered"], 100);
     for f in 1..forms::SIL_FORMS {
         add(&[&format!("silf:form={}", forms::SIL_FORM_NAMES[f])], 40);
     }
+    add(&["sils:fresh"], 25);
+    add(&["sils:stale_counts"], 25);
+    add(&["sils:uncached_label"], 15);
     add(&["pearson:", "p=5+"], 60);
     add(&["pearson:"], 250);
-    add(&["pearson32:", "p=5+"], 30);
+    add(&["pearson32:", "p=5+"], 20);
     add(&["pearson32:"], 120);
     for f in 1..forms::PEARSON_FORMS {
         add(&[&format!("pearsonf:form={}", forms::PEARSON_FORM_NAMES[f])], 30);
@@ -1469,6 +1635,7 @@ pub fn run(em: &mut Em, rng: &mut Rng) {
     gen_reg(em, rng);
     gen_reg_forms(em, rng);
     gen_sil(em, rng);
+    gen_sil_stale(em, rng);
     gen_pearson(em, rng);
     floors(em);
 }
